@@ -148,3 +148,11 @@ Proof.
   intros Hn. unfold rg_make, rg_distances, rg_hdist. destruct h; simpl; [|reflexivity].
   apply default_tables. exact Hn.
 Qed.
+
+Lemma hp_total_4pi pi nside : 1 <= nside -> hp_total pi nside = (qn 4 * pi)%Qc.
+Proof.
+  intros H. unfold hp_total, hp_dvol, hp_size. rewrite !qn_mul.
+  pose proof (qn_nonzero nside H). pose proof (qn_nonzero 3 ltac:(lia)).
+  replace (qn 12) with (qn 4 * qn 3)%Qc by (rewrite <- qn_mul; reflexivity).
+  field. split; assumption.
+Qed.
